@@ -5,6 +5,7 @@ import (
 	"fmt"
 	"math/rand"
 	"runtime"
+	"sort"
 	"sync/atomic"
 
 	m2 "github.com/goark/go-cvss/v2/metric"
@@ -303,6 +304,46 @@ func cmdV2Env(args []string) {
 		}
 		atomic.AddInt64(&evals, int64((nt+1)*30+1))
 	})
+	// (a') the same adjusted base scores once more, on ONE carrier per (CR, IR, AR): the base metrics are swept in the
+	//      order of their base score, so that consecutive assignments leave base and temporal score unchanged while the
+	//      adjusted impact changes (a result kept from the previous assignment would be served again)
+	if flagPid != "C06" {
+		type bs struct {
+			idx int
+			f   float64
+		}
+		order := make([]bs, nb)
+		{
+			c := v2Carrier(false, false)
+			for b := 0; b < nb; b++ {
+				var v v2Vec
+				v2SetFromIndex(&v, 0, 6, b)
+				for i := 0; i < 6; i++ {
+					v2SetField(c, i, v2Defs[i].Codes[v[i]].C)
+				}
+				order[b] = bs{b, c.BaseMetrics().Score()}
+			}
+			sort.SliceStable(order, func(i, j int) bool { return order[i].f < order[j].f })
+		}
+		parallelFor(nreq, workers, func(w, r int) {
+			rec := recs[w]
+			cA := v2Carrier(false, true)
+			var v v2Vec
+			v2SetFromIndex(&v, 11, 14, r)
+			v[9], v[10] = 5, 4 // CDP:ND TD:ND
+			for i := 9; i < v2N; i++ {
+				v2SetField(cA, i, v2Defs[i].Codes[v[i]].C)
+			}
+			for _, o := range order {
+				v2SetFromIndex(&v, 0, 6, o.idx)
+				for i := 0; i < 6; i++ {
+					v2SetField(cA, i, v2Defs[i].Codes[v[i]].C)
+				}
+				rec.Add(v2EventBody(&v, false, true, "E", cA.Score(), cA.Severity().String()), "assign on one carrier, base metrics swept by base score")
+			}
+			atomic.AddInt64(&evals, int64(nb))
+		})
+	}
 	all := NewRecorder()
 	for _, m := range outerW {
 		for k, s := range m {
